@@ -55,6 +55,19 @@ def run(ctx):
                    'string s = %s; write(s[1] is int); write(s.length); }'
                    % (', '.join(str(x) for x in bs), hid_str(bs), b, hid_str(bs), hid_str(bs)))
             jobs.append(('b%d_%d' % (b, nb), src, [], 2, 100, False, 100000))
+    # long constants: a byte that needs escaping at every position (the emitter may split or wrap long directives)
+    maxpos = 150 if ctx.quick else 700
+    for sp in ([0x5c, 0x22, 0x0a, 0x02, 0xff] if ctx.quick else [0x5c, 0x22, 0x27, 0x0a, 0x0d, 0x00, 0x02, 0x7f, 0x80, 0xff]):
+        for p0 in range(0, maxpos, 10):
+            strs = [bytes([0x61] * p + [sp] + [0x62] * ctx.rng.randrange(3) + [sp] * ctx.rng.randrange(2)) for p in range(p0, p0 + 10)]
+            src = ('const string[] gs = [%s];\nempty @is_you() { for (int i = 0; i < gs.length; i += 1) { write(gs[i]); write(gs[i].length); } }'
+                   % ', '.join('"' + ''.join(chr(b) if 0x61 <= b <= 0x62 else '\\x%02x' % b for b in st) + '"' for st in strs))
+            jobs.append(('long%d_%d' % (sp, p0), src, [], 2, 100, False, 400000))
+    for i in range(ctx.budget(20, 300)):
+        n = ctx.rng.randrange(40, 400)
+        st = bytes(ctx.rng.choice([0x5c, 0x22, 0x0a, 0x41, 0x41, 0x20, 0x00, 0xff, ctx.rng.randrange(256)]) for _ in range(n))
+        src = ('empty @is_you() { write(%s); const byte[] b = %s; write(b); write(b.length); }' % (hid_str(st), hid_str(st)))
+        jobs.append(('rnd%d' % i, src, [], ctx.rng.choice([2, 3, 4]), 300, False, 400000))
     # arrays of every element type and length
     for n in (range(0, 41) if not ctx.quick else [0, 1, 7, 8, 9, 16, 17, 40]):
         ints = [ctx.rng.choice([0, 1, -1, 255, 256, 32767, -32768, ctx.rng.randrange(-32768, 32768)]) for _ in range(n)]
@@ -73,7 +86,7 @@ def run(ctx):
                       arr(hid_str(s) for s in strs), arr(map(str, ints)), arr('true' if x else 'false' for x in bools),
                       arr(map(str, ints)), arr('true' if x else 'false' for x in bools)))
             jobs.append(('arr%d_w%d' % (n, w), src, [], w, 200, False, 400000))
-    tally, bad, res = suites.differential(ctx, jobs, None, label='constant-data')
+    tally, bad, res = suites.differential(ctx, jobs, None, label='constant-data', must_compile=True)
     # independent oracle: the printed prefix must be the literal bytes
     wrong = 0
     for j in jobs:
